@@ -70,6 +70,12 @@ class C31(C30):
             {'k2': 'sprite', 'video': 'ega', 'screen': 7, 'view': None, 'x0': 10, 'y0': 10, 'w': 9, 'h': 4, 'seed': 5,
              'pcopy': True},
             {'k2': 'point', 'video': 'ega', 'screen': 7, 'view': None, 'bg': 3, 'x': 20, 'y': 20, 'pcopy': True},
+            # seeded C31f: GET (x0,y0)-STEP(dx,dy) after the cursor was left elsewhere
+            {'k2': 'sprite', 'video': 'cga', 'screen': 1, 'view': None, 'x0': 30, 'y0': 40, 'w': 12, 'h': 7, 'seed': 9,
+             'rounds': 1, 'step': True},
+            {'k2': 'sprite', 'video': 'ega', 'screen': 9, 'view': [20, 20, 300, 200, False], 'x0': 100, 'y0': 50,
+             'w': 9, 'h': 4, 'seed': 10, 'rounds': 0, 'step': True},
+            c(stmt={'k': 'line', 'x0': 200, 'y0': 100, 'x1': -150, 'y1': 60, 'c': 3, 'shape': '', 'step1': True}),
             # seeded C31e: GET, PUT, change one pixel of the bottom row, GET into the same array, PUT again
             {'k2': 'sprite', 'video': 'vga', 'screen': 7, 'view': None, 'x0': 8, 'y0': 100, 'w': 6, 'h': 1, 'seed': 6,
              'rounds': 3},
@@ -138,6 +144,11 @@ class C31(C30):
                         # short and near-diagonal / near-axis lines
                         st['x1'] = min(max(st['x0'] + rng.randint(-12, 12), vr[0] - ox), vr[2] - ox)
                         st['y1'] = min(max(st['y0'] + rng.randint(-12, 12), vr[1] - oy), vr[3] - oy)
+                if st['k'] == 'line' and rng.random() < 0.3:
+                    # LINE (x0,y0)-STEP(dx,dy): the same geometry in the alternative syntax (the cursor is elsewhere:
+                    # the random contents were drawn before)
+                    st['step1'] = True
+                    st['x1'], st['y1'] = st['x1'] - st['x0'], st['y1'] - st['y0']
                 case = {'video': video, 'screen': screen, 'apage': rng.choice([0, 0, 1]), 'vpage': 0, 'view': view,
                         'window': None, 'bg': rng.randrange(max(1, nattr - 1)), 'last': None,
                         'noise': [rng.randrange(1 << 30), rng.randint(0, 8), max(1, nattr - 1)], 'stmt': st}
@@ -162,6 +173,8 @@ class C31(C30):
                 if rng.random() < 0.4:
                     case['pcopy'] = True
                 case['rounds'] = rng.choice([0, 1, 1, 2, 3])
+                if rng.random() < 0.4:
+                    case['step'] = True     # GET (x0,y0)-STEP(dx,dy)
                 key = 'sprite'
             else:
                 case = {'k2': 'point', 'video': video, 'screen': screen, 'view': view,
@@ -260,7 +273,12 @@ class C31(C30):
         s._impl.interpreter.error_num = 0
         before = G.snapshot(s)
         view = G.view_of(g)
-        ex('GET (%d,%d)-(%d,%d),A%%' % (x0, y0, x0 + sw - 1, y1))
+        if case.get('step'):
+            # the alternative syntax of the same rectangle; the graphics cursor is wherever the last PSET left it
+            get_stmt = 'GET (%d,%d)-STEP(%d,%d),A%%' % (x0, y0, sw - 1, y1 - y0)
+        else:
+            get_stmt = 'GET (%d,%d)-(%d,%d),A%%' % (x0, y0, x0 + sw - 1, y1)
+        ex(get_stmt)
         e1 = s._impl.interpreter.error_num
         name = s._impl.memory.complete_name(b'A%')
         arr = bytes(bytearray(s._impl.memory.arrays.view_full_buffer(name)))
@@ -304,7 +322,7 @@ class C31(C30):
                 new = old ^ r2.choice([na >> 1, na >> 1, na - 1, 1])
                 ex('PSET (%d,%d),%d' % (mx, my, new % na))
             b2 = G.snapshot(s)
-            ex('GET (%d,%d)-(%d,%d),A%%' % (x0, y0, x0 + sw - 1, y1))
+            ex(get_stmt)
             ex('PUT (%d,%d),A%%,PSET' % (x0, y0))
             same = (G.snapshot(s) == b2)
             ex('LINE (%d,%d)-(%d,%d),0,BF' % (x0, y0, x1, y1))
@@ -431,6 +449,8 @@ class C31(C30):
                     st['x'], st['y'], attr, pb)
             return None
         x0, y0, x1, y1 = st['x0'], st['y0'], st['x1'], st['y1']
+        if st.get('step1'):
+            x1, y1 = x0 + x1, y0 + y1
         lx, hx, ly, hy = min(x0, x1), max(x0, x1), min(y0, y1), max(y0, y1)
         if st['shape'] == 'BF':
             want = set((x, y) for x in range(lx, hx + 1) for y in range(ly, hy + 1))
